@@ -1622,6 +1622,17 @@ def follow_ups(rng, st):
             else:
                 out.append({'do': 'observation', 'src': 'src', 'band': -1, 'wild': False, 'binset': None,
                             'force': rng.choice(['none', 'none', 'none', 'extrap', 'taper', 'bogus'])})
+    if st['do'] == 'new_empirical' and st.get('meta') is not None and st['kind'] in ('source', 'bandpass') and rng.random() < 0.3:
+        # a second operand that also carries user metadata (often under the same keys), a product / sum of the two,
+        # and edits of the result's metadata at every depth: the operands' metadata must stay as they are
+        k2 = 'bandpass' if st['kind'] == 'source' or rng.random() < 0.6 else 'source'
+        out.append({'do': 'new_empirical', 'kind': k2, 'x': S(rng), 'y': S(rng), 'keep_neg': rng.random() < 0.35,
+                    'meta': S(rng), 'fill': gen_fill(rng)})
+        op = 'mul' if k2 == 'bandpass' else rng.choice(['add', 'sub'])
+        out.append({'do': 'arith', 'op': op, 'a': -2, 'b': {'sel': -1}})
+        for _ in range(rng.choice([1, 2, 3])):
+            out.append(gen_deep_edit(rng, -1))
+        return out
     if st['do'] == 'new_empirical' and st['kind'] == 'reddening' and rng.random() < 0.7:
         # queries on the new law: extinction curves on one or two grids
         for _ in range(rng.choice([1, 2])):
@@ -1645,7 +1656,7 @@ def follow_ups(rng, st):
                 out.append({'do': 'set_warnings', 'o': 'last', 'w': [['operand', jcanon('w%d' % rng.randint(0, 9))]]})
             else:
                 out.append({'do': 'force_extrap', 'o': 'last'})
-    if st['do'] in ('arith', 'normalize', 'observation', 'rmul') and rng.random() < 0.35:
+    if st['do'] in ('arith', 'normalize', 'observation', 'rmul') and rng.random() < 0.45:
         # the newest object is addressed by selector -1 (n % len == len - 1)
         out.append({'do': 'set_warnings', 'o': -1, 'w': [['edited', jcanon('yes')]]})
         if rng.random() < 0.5:
